@@ -178,7 +178,11 @@ def run(ck):
   run_corpus(ck)
   n = ck.budget(13, 500)
   made = semcheck.make_programs(ck, n, G.Gen.ALL)
-  made += semcheck.make_programs(ck, ck.budget(18, 400), None, {}, builder=templates.build)
+  made += semcheck.make_programs(ck, ck.budget(14, 400), None, {}, builder=templates.build)
+  # the shapes in which the sugars are most easily broken, several instances of each
+  made += semcheck.make_programs(ck, ck.budget(20, 200), None,
+                                 {'templates': ['t_nested_disjunction', 't_multivalued_calls', 't_division', 't_implication', 't_no_table_rule']},
+                                 builder=templates.build)
   jobs, meta = [], []
   P = G.Printer
   for pr, model in made:
